@@ -568,7 +568,12 @@ func CheckLocalDot(a *Analysis, w *World) []string {
 			out = append(out, fmt.Sprintf("reference to %q (neither local nor dot-imported) rendered as the bare name %s", p, u.Sym))
 		}
 	}
-	if w.Local != "" && len(specs[w.Local]) > 0 {
+	anon := map[string]bool{}
+	for _, p := range w.Anon {
+		anon[p] = true
+	}
+	// (an explicit Anon of the File's own path is the caller's doing, not the reference's)
+	if w.Local != "" && len(specs[w.Local]) > 0 && !anon[w.Local] {
 		out = append(out, fmt.Sprintf("the local package %q is imported", w.Local))
 	}
 	for p := range used {
